@@ -29,61 +29,85 @@ func volWith(add, del int64) *crdt.Volatile {
 	return v
 }
 
+// receiver builds the replica under test: a volatile set, or a durable one (in-memory buntdb) fed through a merge so
+// that it holds exactly the given times.
+func receiver(durable bool, add, del int64) crdt.Map {
+	if !durable {
+		return volWith(add, del)
+	}
+	d := crdt.NewDurable(":memory:")
+	if add > 0 || del > 0 {
+		d.Merge(volWith(add, del))
+	}
+	return d
+}
+
 func concScenarios() map[string]*sched.Scenario {
 	type sc struct {
-		name                   string
-		base, in1, in2         [2]int64
-		localAdd, localDel     int64
-		wantAdd, wantDel       int64
+		name               string
+		base, in1, in2     [2]int64
+		localAdd, localDel int64
+		wantAdd, wantDel   int64
 	}
 	list := []sc{
 		{"merge-merge-add", [2]int64{2, 0}, [2]int64{3, 1}, [2]int64{1, 4}, 5, 0, 5, 4},
 		{"merge-merge-del", [2]int64{2, 1}, [2]int64{6, 0}, [2]int64{0, 3}, 0, 5, 6, 5},
+		// the key is not known to the replica yet (a read returns a fresh value, not a view of a stored one)
+		{"merge-merge-unknown", [2]int64{0, 0}, [2]int64{3, 1}, [2]int64{1, 4}, 5, 0, 5, 4},
 	}
 	m := map[string]*sched.Scenario{}
-	for _, x := range list {
-		x := x
-		m[x.name] = &sched.Scenario{
-			Name: x.name, Files: []string{"internal/event/crdt/volatile.go", "internal/event/crdt/map.go"},
-			Body: func(s *sched.Sched) {
-				orig := crdt.Now
-				crdt.Now = func() int64 { return concClock }
-				r := volWith(x.base[0], x.base[1])
-				o1, o2 := volWith(x.in1[0], x.in1[1]), volWith(x.in2[0], x.in2[1])
-				var sawHas []bool
-				s.Go("M1", func() { r.Merge(o1) })
-				s.Go("M2", func() { r.Merge(o2) })
-				s.Go("L", func() {
-					// the local clock is read inside Add/Del; it is fixed for the whole execution
+	for _, base := range list {
+		for _, durable := range []bool{false, true} {
+			x, durable := base, durable
+			files := []string{"internal/event/crdt/volatile.go", "internal/event/crdt/map.go"}
+			if durable {
+				// the durable set: yields between the statements of its methods; its buntdb transactions are atomic
+				x.name = "durable-" + x.name
+				files = []string{"internal/event/crdt/durable.go"}
+			}
+			m[x.name] = &sched.Scenario{
+				Name: x.name, Files: files,
+				Body: func(s *sched.Sched) {
+					orig := crdt.Now
+					crdt.Now = func() int64 { return concClock }
+					r := receiver(durable, x.base[0], x.base[1])
+					o1, o2 := volWith(x.in1[0], x.in1[1]), volWith(x.in2[0], x.in2[1])
+					r.Has("k1") // the entry has been looked up before (authorisation does that): a durable set now serves it from its read cache
+					var sawHas []bool
+					s.Go("M1", func() { r.Merge(o1) })
+					s.Go("M2", func() { r.Merge(o2) })
+					s.Go("L", func() {
+						// the local clock is read inside Add/Del; it is fixed for the whole execution
+						if x.localAdd > 0 {
+							r.Add("k1", nil)
+						} else {
+							r.Del("k1")
+						}
+						sawHas = append(sawHas, r.Has("k1"))
+					})
 					if x.localAdd > 0 {
-						r.Add("k1", nil)
+						concClock = x.localAdd
 					} else {
-						r.Del("k1")
+						concClock = x.localDel
 					}
-					sawHas = append(sawHas, r.Has("k1"))
-				})
-				if x.localAdd > 0 {
-					concClock = x.localAdd
-				} else {
-					concClock = x.localDel
-				}
-				s.AtEnd(func() {
-					v := r.Get("k1")
-					s.Obs("add=%d del=%d has=%v", v.AddTime(), v.DelTime(), r.Has("k1"))
-					crdt.Now = orig
-				})
-			},
-			Check: func(e *sched.Exec) (string, string) {
-				want := fmt.Sprintf("add=%d del=%d has=%v", x.wantAdd, x.wantDel, x.wantAdd >= x.wantDel)
-				if len(e.Obs) != 1 || e.Obs[0] != want {
-					return "concurrent-merges:not-pointwise-max", fmt.Sprintf("replica (add=%d,del=%d) received (add=%d,del=%d) and (add=%d,del=%d) at the same time as a local update at %d: holds [%s], the point-wise maximum is [%s]",
-						x.base[0], x.base[1], x.in1[0], x.in1[1], x.in2[0], x.in2[1], x.localAdd+x.localDel, strings.Join(e.Obs, " "), want)
-				}
-				return "", ""
-			},
+					s.AtEnd(func() {
+						v := r.Get("k1")
+						s.Obs("add=%d del=%d has=%v", v.AddTime(), v.DelTime(), r.Has("k1"))
+						crdt.Now = orig
+					})
+				},
+				Check: func(e *sched.Exec) (string, string) {
+					want := fmt.Sprintf("add=%d del=%d has=%v", x.wantAdd, x.wantDel, x.wantAdd >= x.wantDel)
+					if len(e.Obs) != 1 || e.Obs[0] != want {
+						return "concurrent-merges:not-pointwise-max", fmt.Sprintf("replica (add=%d,del=%d) received (add=%d,del=%d) and (add=%d,del=%d) at the same time as a local update at %d: holds [%s], the point-wise maximum is [%s]",
+							x.base[0], x.base[1], x.in1[0], x.in1[1], x.in2[0], x.in2[1], x.localAdd+x.localDel, strings.Join(e.Obs, " "), want)
+					}
+					return "", ""
+				},
+			}
 		}
 	}
 	return m
 }
 
-var concOrder = []string{"merge-merge-add", "merge-merge-del"}
+var concOrder = []string{"merge-merge-add", "merge-merge-del", "merge-merge-unknown", "durable-merge-merge-add", "durable-merge-merge-del", "durable-merge-merge-unknown"}
